@@ -104,6 +104,8 @@ def full_registry(extra_contracts=True):
             inst, sch = a[0], a[1]
             sch = web.unlift(sch) if isinstance(sch, VDict) else sch
             if isinstance(inst, Sym) and inst.ty == 'str' and isinstance(sch, dict):
+                I.ghost.setdefault('validated', {})[inst.t.sexpr()] = sch
+            if isinstance(inst, Sym) and inst.ty == 'str' and isinstance(sch, dict):
                 pat = sch.get('pattern')
                 if (pat and _re.search(pat, '') is None) or sch.get('minLength', 0) >= 1:
                     I.ex.assume(z3.Function('str_nonempty', web.StrSort,
